@@ -128,7 +128,7 @@ func smallNear(r *rand.Rand, leo uint64) uint64 {
 // boundaryNear draws a retention boundary: adopting a boundary above LEO moves
 // LEO there, so values stay small enough that the log never nears 2^64.
 func boundaryNear(r *rand.Rand, leo uint64) uint64 {
-	switch r.IntN(24) {
+	switch r.IntN(40) {
 	case 0:
 		return 0
 	case 1:
@@ -256,6 +256,19 @@ func gen(r *rand.Rand, tier string, i int) input {
 		leo += uint64(n)
 		ops = append(ops, o)
 	}
+	if !wild { // a committed, checkpointed prefix to start from
+		for j := r.IntN(4); j > 0; j-- {
+			appendOp()
+		}
+		if leo > 0 && vh.Chance(r, 0.8) {
+			hw = leo - uint64(r.IntN(2))
+			ops = append(ops, op{K: "hw", V: hw})
+			if vh.Chance(r, 0.8) {
+				ck = hw
+				ops = append(ops, op{K: "ckpt", V: ck})
+			}
+		}
+	}
 	for len(ops) < nops {
 		aim := !wild && vh.Chance(r, 0.8)
 		switch k := r.IntN(24); {
@@ -291,9 +304,9 @@ func gen(r *rand.Rand, tier string, i int) input {
 			t := boundaryNear(r, leo)
 			if aim {
 				top := min(ck, hw, leo)
-				t = local + uint64(r.IntN(int(top-min(top, local))+2))
-				if vh.Chance(r, 0.2) {
-					t = smallNear(r, top) // regressing or repeated boundary
+				t = smallNear(r, top) // includes regressing and repeated boundaries
+				if vh.Chance(r, 0.3) {
+					t = local + uint64(r.IntN(2))
 				}
 			}
 			o := op{K: "apply", Through: t, MaxMsgs: vh.Pick(r, 0, 0, 0, 1, 2, 3, -1), MaxBytes: vh.Pick(r, 0, 0, 0, 0, 1, 3, 6, -1)}
@@ -306,6 +319,9 @@ func gen(r *rand.Rand, tier string, i int) input {
 			ops = append(ops, o)
 		case k < 15: // adopt (direct store)
 			t := boundaryNear(r, leo)
+			if aim {
+				t = smallNear(r, min(ck, leo))
+			}
 			if t > leo {
 				leo = t
 			}
